@@ -3,6 +3,7 @@ from checks import kern, law_audits
 from checks import pure_fns
 from checks import full_step
 from checks import api_cov
+from checks import scale_inv
 LEAN_TARGETS = ["drv_step", "QmcProofs.SamplerStep", "QmcProofs.SamplerCluster", "QmcProps.C04", "drv_c04", "QmcProps.C08", "drv_c08", "QmcProps.C02", "drv_c02"]
 BINS = ["fullstep", "c04", "c04m", "c08", "c02", "kern"]
 
@@ -154,4 +155,5 @@ def main(ck):
     full_step.run(ck, modes=["generic"], audit=True)
     law_audits.run(ck, groups=["generic"])   # law of the executable generic step (loops off) = kernels; C04 capstone
     api_cov.run(ck, "c04")   # otherwise unexercised public API, model-free oracles of this property
+    scale_inv.run(ck, "c04")   # power-of-two unit change: identical trajectory, energies exactly scaled (model-free twin oracle)
     return ck.finish(RULE)
